@@ -443,7 +443,12 @@ pub(crate) fn c15_finalize(k: usize, threads_form: bool) {
   let post = if e::choose_bool() { Some(pick_op(&[Op::Take, Op::Map, Op::TakeWhile, Op::Contains])) } else { None };
   let pp = pre.map(|o| (o, draw_params(o, 2, 20)));
   let po = post.map(|o| (o, draw_params(o, 2, 21)));
+  // every run of the finalizer is also an event on a probe of its own: the local-vs-threads comparison (C18)
+  // only sees probe logs
+  let fin_probe = fresh_probe();
   let fin_cb = move || {
+    let mut fp = fin_probe;
+    Observer::<Val, Val>::next(&mut fp, Val::c(777));
     let n = world::bump(1);
     // position of the call relative to the downstream terminal
     let term_seen = world::w(|w| w.probes[probe.id].terminated);
@@ -473,12 +478,24 @@ pub(crate) fn c15_finalize(k: usize, threads_form: bool) {
   if never_src {
     e::note(format!("never().finalize{} ; released by {}", if threads_form { "_threads" } else { "" }, if by_guard { "guard drop" } else { "unsubscribe()" }));
     let src = observable::never().map(|_: ()| Val::c(0)).on_error_map(|_: std::convert::Infallible| Val::c(0));
+    // the handle as returned, or type-erased in a BoxSubscription(Threads) as boxed pipelines return it
+    let boxed = e::choose_bool();
+    if boxed {
+      e::note("  (handle boxed)".to_string());
+    }
     if threads_form {
       let u = src.finalize_threads(fin_cb).actual_subscribe(probe);
       if world::counter(1) != 0 {
         e::fail("finalize/ran-early", || "finalizer ran at subscription".to_string());
       }
-      if by_guard {
+      if boxed {
+        let u = BoxSubscriptionThreads::new(u);
+        if by_guard {
+          drop(u.unsubscribe_when_dropped());
+        } else {
+          u.unsubscribe();
+        }
+      } else if by_guard {
         drop(u.unsubscribe_when_dropped());
       } else {
         u.unsubscribe();
@@ -488,7 +505,14 @@ pub(crate) fn c15_finalize(k: usize, threads_form: bool) {
       if world::counter(1) != 0 {
         e::fail("finalize/ran-early", || "finalizer ran at subscription".to_string());
       }
-      if by_guard {
+      if boxed {
+        let u = BoxSubscription::new(u);
+        if by_guard {
+          drop(u.unsubscribe_when_dropped());
+        } else {
+          u.unsubscribe();
+        }
+      } else if by_guard {
         drop(u.unsubscribe_when_dropped());
       } else {
         u.unsubscribe();
